@@ -89,8 +89,29 @@ def surviving_children():
     return out
 
 
+def _written(stmt, shared):
+    """shared arrays that the statement (or any statement nested in it) may write to"""
+    out = set()
+    for node in ast.walk(stmt):
+        if isinstance(node, (ast.Assign, ast.AugAssign)):
+            targets = node.targets if isinstance(node, ast.Assign) else [node.target]
+            for t in targets:
+                base = t
+                while isinstance(base, (ast.Subscript, ast.Attribute)): base = base.value
+                if isinstance(base, ast.Name) and base.id in shared and not isinstance(t, ast.Name): out.add(base.id)
+        if isinstance(node, ast.Call):
+            for kw in node.keywords:
+                if kw.arg == 'out' and isinstance(kw.value, ast.Name) and kw.value.id in shared: out.add(kw.value.id)
+            fn = ast.unparse(node.func)
+            if fn in ('numpy.add.at', 'numpy.copyto') and node.args and isinstance(node.args[0], ast.Name) and node.args[0].id in shared: out.add(node.args[0].id)
+            if isinstance(node.func, ast.Attribute) and node.func.attr in ('fill', 'itemset', 'sort') and isinstance(node.func.value, ast.Name) and node.func.value.id in shared: out.add(node.func.value.id)
+    return out
+
+
 def lock_discipline(script):
-    """returns a description of the first violation of the lock discipline in the generated code, or None"""
+    """returns (description of the first violation of the lock discipline in the generated code or None, number of statements checked).
+    Inside a parallel (ctxrange) loop every statement that touches a shared array *which that loop writes to* must hold a lock;
+    shared arrays completed by an earlier loop may be read freely."""
     tree = ast.parse(script)
     shared = {}
     for node in ast.walk(tree):
@@ -100,10 +121,9 @@ def lock_discipline(script):
                 shared[node.targets[0].id] = node.lineno
     if not shared:
         return None, 0
-
     nchecked = 0
 
-    def visit(node, in_par_loop, locks_held):
+    def visit(node, contended, locks_held):
         nonlocal nchecked
         if isinstance(node, ast.With):
             ctx = node.items[0].context_expr
@@ -111,31 +131,33 @@ def lock_discipline(script):
             is_lock = isinstance(ctx, ast.Name) and ctx.id.startswith('lock')
             if is_lock and ctx.id in locks_held:
                 return f'line {node.lineno}: lock {ctx.id} acquired while already held'
+            if is_par:
+                contended = contended | _written(node, set(shared))
             for child in node.body:
-                r = visit(child, in_par_loop or is_par, locks_held | ({ctx.id} if is_lock else set()))
+                r = visit(child, contended, locks_held | ({ctx.id} if is_lock else set()))
                 if r: return r
             return None
         if isinstance(node, (ast.For, ast.If, ast.While)):
-            for child in node.body + getattr(node, 'orelse', []):
-                r = visit(child, in_par_loop, locks_held)
-                if r: return r
-            if isinstance(node, ast.If) and in_par_loop:
+            if isinstance(node, ast.If) and contended:
                 names = {n.id for n in ast.walk(node.test) if isinstance(n, ast.Name)}
-                if names & set(shared) and not locks_held:
-                    return f'line {node.lineno}: condition reads shared array(s) {sorted(names & set(shared))} without a lock'
+                if names & contended and not locks_held:
+                    return f'line {node.lineno}: condition reads shared array(s) {sorted(names & contended)} that the parallel loop writes to, without a lock'
+            for child in node.body + getattr(node, 'orelse', []):
+                r = visit(child, contended, locks_held)
+                if r: return r
             return None
-        if in_par_loop:
+        if contended:
             names = {n.id for n in ast.walk(node) if isinstance(n, ast.Name)}
-            touched = names & set(shared)
+            touched = names & contended
             if touched:
                 nchecked += 1
                 if not locks_held:
-                    return f'line {getattr(node, "lineno", "?")}: statement touches shared array(s) {sorted(touched)} inside the parallel loop without holding a lock: {ast.unparse(node)[:120]}'
+                    return f'line {getattr(node, "lineno", "?")}: statement touches shared array(s) {sorted(touched)} that the parallel loop writes to, without holding a lock: {ast.unparse(node)[:120]}'
         return None
 
     fn = tree.body[0]
     for stmt in fn.body:
-        r = visit(stmt, False, set())
+        r = visit(stmt, set(), set())
         if r: return r, nchecked
     return None, nchecked
 
